@@ -209,6 +209,90 @@ Qed.
 Theorem gen_empty_registry_refines : forall alive, Abs alive [] (Heap.reg init).
 Proof. intros alive id. reflexivity. Qed.
 
+(* ---- every history ------------------------------------------------------------------------------------------------
+   any finite sequence of registrations, removals, writability checks and collections, run on the generated tracker and on
+   the model's registry: the abstraction holds at the end and every check answered alike *)
+Inductive aop := AReg (h id : nat) | AUnreg (h id : nat) | ACheck (h id : nat) | AGc (hs : list nat).
+
+Definition after_gc (alive : nat -> bool) (hs : list nat) : nat -> bool := fun x => alive x && negb (mem x hs).
+Definition collect_reg (R : list (nat * list nat)) (hs : list nat) : list (nat * list nat) :=
+  map (fun e => (fst e, filter (fun x => negb (mem x hs)) (snd e))) R.
+
+Fixpoint crun (alive : nat -> bool) (reg : list (nat * list nat)) (ops : list aop)
+  : (nat -> bool) * list (nat * list nat) * list bool :=
+  match ops with
+  | [] => (alive, reg, [])
+  | AReg h id :: t => crun alive (GenAlias.register alive reg h id) t
+  | AUnreg h id :: t => crun alive (GenAlias.unregister alive reg h id) t
+  | ACheck h id :: t =>
+      let rb := GenAlias.check_writable alive reg h id in
+      let '(a, r, bs) := crun alive (fst rb) t in (a, r, snd rb :: bs)
+  | AGc hs :: t => crun (after_gc alive hs) reg t
+  end.
+
+Fixpoint mrun (R : list (nat * list nat)) (ops : list aop) : list (nat * list nat) * list bool :=
+  match ops with
+  | [] => (R, [])
+  | AReg h id :: t => mrun (register R h id) t
+  | AUnreg h id :: t => mrun (unregister R h id) t
+  | ACheck h id :: t => let '(r, bs) := mrun R t in (r, check_writable R id :: bs)
+  | AGc hs :: t => mrun (collect_reg R hs) t
+  end.
+
+(* the code registers a vector it holds: the vector is alive at that moment *)
+Fixpoint well_formed (alive : nat -> bool) (ops : list aop) : Prop :=
+  match ops with
+  | [] => True
+  | AReg h _ :: t => alive h = true /\ well_formed alive t
+  | AGc hs :: t => well_formed (after_gc alive hs) t
+  | _ :: t => well_formed alive t
+  end.
+
+Lemma collect_reg_refines : forall alive reg R hs,
+  Abs alive reg R -> Abs (after_gc alive hs) reg (collect_reg R hs).
+Proof.
+  intros alive reg R hs HA id. unfold collect_reg, rget.
+  rewrite (aget_map_snd (fun _ l => filter (fun x => negb (mem x hs)) l)).
+  specialize (HA id). unfold rget in HA. unfold handle in *.
+  transitivity (filter (fun x => negb (mem x hs)) (filter alive match aget reg id with Some l => l | None => [] end)).
+  - generalize (match aget reg id with Some l => l | None => [] end). intros l. unfold after_gc.
+    induction l as [|a t IH]; cbn [filter]; [reflexivity|].
+    destruct (alive a); cbn [andb filter]; [|exact IH].
+    destruct (negb (mem a hs)); [f_equal|]; exact IH.
+  - unfold handle in *. rewrite HA. destruct (aget R id); reflexivity.
+Qed.
+
+Theorem gen_tracker_history_refines : forall ops alive reg R,
+  Abs alive reg R -> well_formed alive ops ->
+  Abs (fst (fst (crun alive reg ops))) (snd (fst (crun alive reg ops))) (fst (mrun R ops)) /\
+  snd (crun alive reg ops) = snd (mrun R ops).
+Proof.
+  induction ops as [|o t IH]; intros alive reg R HA HW; cbn [crun mrun fst snd]; [split; [exact HA|reflexivity]|].
+  destruct o as [h id|h id|h id|hs]; cbn [well_formed] in HW.
+  - destruct HW as [Hv HW]. apply IH; [apply gen_register_refines; assumption|exact HW].
+  - apply IH; [apply gen_unregister_refines; assumption|exact HW].
+  - destruct (gen_check_writable_refines alive reg R h id HA) as [HA' Hb].
+    specialize (IH alive (fst (GenAlias.check_writable alive reg h id)) R HA' HW).
+    destruct (crun alive (fst (GenAlias.check_writable alive reg h id)) t) as [[a r] bs].
+    destruct (mrun R t) as [r' bs']. cbn [fst snd] in *. destruct IH as [IH1 IH2].
+    split; [exact IH1|]. rewrite Hb, IH2. reflexivity.
+  - apply IH; [apply collect_reg_refines; exact HA|exact HW].
+Qed.
+
+(* from the empty tracker: what the code answers to any well-formed history of calls is what the model answers *)
+Theorem C15_gen_tracker_answers_as_model_after_any_history : forall ops alive,
+  well_formed alive ops -> snd (crun alive [] ops) = snd (mrun [] ops).
+Proof.
+  intros ops alive HW. apply (gen_tracker_history_refines ops alive [] []); [|exact HW].
+  intros id. reflexivity.
+Qed.
+
+Example history_example :
+  let alive := fun _ : nat => true in
+  let ops := [AReg 1 5; AReg 2 5; ACheck 1 5; AGc [2]; ACheck 1 5; AReg 3 5; AUnreg 1 5; ACheck 3 5; AReg 4 0; AReg 6 0; ACheck 4 0] in
+  snd (crun alive [] ops) = [false; true; true; true] /\ well_formed alive ops.
+Proof. vm_compute. repeat split. Qed.
+
 Print Assumptions gen_register_refines.
 Print Assumptions gen_unregister_refines.
 Print Assumptions gen_check_writable_refines.
@@ -216,3 +300,5 @@ Print Assumptions C15_gen_refused_iff_two_live_owners.
 Print Assumptions gen_register_keeps_owners_distinct.
 Print Assumptions gen_collection_refines.
 Print Assumptions gen_empty_registry_refines.
+Print Assumptions gen_tracker_history_refines.
+Print Assumptions C15_gen_tracker_answers_as_model_after_any_history.
